@@ -96,7 +96,10 @@ Qed.
 (* every operation on every state: a new state, an error of the gfapy hierarchy, or — removal only — RecursionError *)
 Theorem step_errors O s o e : step O s o = Err e -> (exists g, e = G g) \/ e = Foreign RecursionError.
 Proof.
-  destruct o as [t|n|a b]; cbn [step]; intro H.
+  destruct o as [t|n|a b|t]; cbn [step]; intro H;
+    [| | | unfold rm_line in H; destruct (find _ (lines s)) as [x|];
+           [unfold disconnect in H; destruct (_ && _); [discriminate|]; injection H as <-; right; reflexivity
+           | injection H as <-; left; eauto]].
   - left. pose proof (add_line_nf O s t) as K. unfold nf in K. rewrite H in K. destruct e as [g|p]; [eauto|discriminate].
   - exact (rm_errors s n e H).
   - left. pose proof (rename_nf s a b) as K. unfold nf in K. rewrite H in K. destruct e as [g|p]; [eauto|discriminate].
